@@ -138,7 +138,31 @@ impl ZReorderMap {
         };
 
         map.rewind()?;
+
+        // Walk the run-length records once: inside the file they must add up to exactly the
+        // declared number of elements.  A file that was cut short, or written by a builder that
+        // never finished, would otherwise iterate fewer values than size() reports, silently.
+        map.check_records()?;
+        map.rewind()?;
         Ok(map)
+    }
+
+    /// Verifies that the records of the file cover exactly `size` elements.
+    fn check_records(&mut self) -> Result<()> {
+        let mut covered = 0usize;
+        while covered < self.size {
+            // `rewind` / `read_entry` have decoded the record that starts at `covered`
+            if self.seq_length == 0 || self.seq_length > self.size - covered {
+                return Err(ZiporaError::invalid_data(
+                    "ZReorderMap: run lengths do not match the declared size"
+                ));
+            }
+            covered += self.seq_length;
+            if covered < self.size {
+                self.read_entry()?;
+            }
+        }
+        Ok(())
     }
 
     /// Checks if the iterator has reached the end.
